@@ -74,15 +74,11 @@ def header(s: ast.AST):
     return s
 
 
-class InlineBlock(ast.If):
-    """`if True:` block holding the body of an inlined helper; `label` names it for InlineJump"""
-    _fields = ast.If._fields
-    label = ""
-
-
-class InlineJump(ast.Pass):
-    """the helper's `return`: control continues after the InlineBlock with the same label"""
-    label = ""
+# the class names stay 'If' / 'Pass' so that name-dispatching visitors (ast.unparse, NodeTransformer) treat them as such
+InlineBlock = type("If", (ast.If,), {"label": "", "_inline_block": True,
+                                     "__doc__": "`if True:` block holding the body of an inlined helper; `label` names it for InlineJump"})
+InlineJump = type("Pass", (ast.Pass,), {"label": "", "_inline_jump": True,
+                                        "__doc__": "the helper's `return`: control continues after the InlineBlock with the same label"})
 
 
 def build(body: List[ast.stmt]) -> CFG:
